@@ -354,11 +354,11 @@ def run(ctx):
     def rep_oracle(case, rec):
         return oracle_ensure_rep(case, rec, known_eq)
     clauses = [
-        Clause('C19/domain', lambda: data_params(), oracle_domain, quick=900, thorough=288000, quick_shards=4),
-        Clause('C19/ensure-rep', lambda: data_params(rep=True), rep_oracle, quick=600, thorough=216000, quick_shards=3),
-        Clause('C19/replay', replay_case, oracle_replay, quick=400, thorough=144000, quick_shards=3),
-        Clause('C19/naive', naive_case, oracle_naive, quick=200, thorough=72000, quick_shards=2),
-        Clause('C19/csv', csv_case, oracle_csv, quick=80, thorough=28800, quick_shards=2),
+        Clause('C19/domain', lambda: data_params(), oracle_domain, quick=3200, thorough=288000, quick_shards=4),
+        Clause('C19/ensure-rep', lambda: data_params(rep=True), rep_oracle, quick=2100, thorough=216000, quick_shards=3),
+        Clause('C19/replay', replay_case, oracle_replay, quick=1200, thorough=144000, quick_shards=3),
+        Clause('C19/naive', naive_case, oracle_naive, quick=400, thorough=72000, quick_shards=2),
+        Clause('C19/csv', csv_case, oracle_csv, quick=160, thorough=28800, quick_shards=2),
     ]
     drive(ctx, clauses)
     c = ctx.stats.classes
